@@ -175,6 +175,17 @@ def sub_list():
     return dedup(out)
 
 
+def seq_list():
+    """(lhs index type, lhs pattern, rhs index type, rhs pattern) for layout_stride::mapping::operator== across index types and
+    extents types (both operand orders are evaluated on every line, so each pair has the narrow type on the left once)"""
+    return [("u8", (2, 2), "i32", (2, 2)), ("u8", (-1, -1), "i32", (-1, -1)), ("i8", (-1,), "i64", (-1,)),
+            ("u8", (-1, -1, -1), "i32", (-1, -1, -1)), ("i8", (-1, -1, -1), "u16", (-1, 2, -1)), ("i16", (-1, -1), "i32", (2, -1)),
+            ("u16", (-1, 3), "u64", (-1, -1)), ("i32", (-1, -1), "i64", (-1, -1)), ("i32", (2, 3), "u8", (2, 3)),
+            ("i64", (-1, -1), "i8", (-1, -1)), ("u8", (), "i32", ()), ("i16", (-1, -1, -1, -1), "u32", (-1, -1, -1, -1)),
+            ("u8", (2, -1, 4), "i64", (-1, -1, -1)), ("i32", (2, 3), "i32", (2, 3)), ("u8", (-1, -1), "u8", (-1, -1)),
+            ("u32", (-1, -1), "i32", (-1, -1))]
+
+
 def span_ct_list():
     """(static extent or -1, op, Offset, Count or -1) for span of length 0..6"""
     out = []
@@ -194,12 +205,12 @@ def pat_str(p):
     return "[" + ",".join(str(x) for x in p) + "]"
 
 
-NMAP = 4          # translation units for the mapping instantiations
+NMAP = 6          # translation units for the mapping instantiations
 NEXT = 3          # translation units for the extents-only instantiations
 
 
 def inst_hash():
-    return hashlib.sha256(repr((type_list(True), map_type_list(True), conv_list(True), span_ct_list(), sub_list(), NMAP, NEXT)).encode()).hexdigest()[:16]
+    return hashlib.sha256(repr((type_list(True), map_type_list(True), conv_list(True), span_ct_list(), sub_list(), seq_list(), NMAP, NEXT)).encode()).hexdigest()[:16]
 
 
 def emit_inst(f):
@@ -248,6 +259,11 @@ def emit_inst(f):
     for it, p, ks in sub_list():
         f.write('C19_SUB("%s:%s:%s", (%s), %s%s)\n' % (it, pat_str(p), ",".join(ks) if ks else "-", ", ".join(kind_type(k) for k in ks),
                                                       CTYPE[it], targs(p)))
+    f.write("#endif\n")
+    f.write("#ifdef C19_SEQ\n")
+    for a, pa, b, pb in seq_list():
+        f.write('C19_SEQ("%s:%s==%s:%s", (etl::extents<%s%s>), (etl::extents<%s%s>))\n'
+                % (a, pat_str(pa), b, pat_str(pb), CTYPE[a], targs(pa), CTYPE[b], targs(pb)))
     f.write("#endif\n")
     f.write("#ifdef C19_SPAN\n")
     for se, op, o, c in span_ct_list():
@@ -301,6 +317,112 @@ def make_strides(rnd, ext, exhaustive=False):
     return strs, list(reversed(order))
 
 
+def stride_ok(ext, strs):
+    """the uniqueness precondition of [mdspan.layout.stride.cons]: ordered by stride, every stride is at least the span of the
+    faster dimensions (dimensions of extent <= 1 contribute no span constraint beyond their own stride)"""
+    order = sorted(range(len(ext)), key=lambda k: (strs[k], ext[k]))
+    bound = 1
+    for k in order:
+        if strs[k] < bound:
+            return False
+        bound = strs[k] * ext[k] if ext[k] > 0 else bound
+    return True
+
+
+def contig_strides(ext, left):
+    return [prod(ext[:k]) if left else prod(ext[k + 1:]) for k in range(len(ext))]
+
+
+def seq_lines(rnd, thorough):
+    """`seq` lines: see RULE"""
+    out = []
+
+    def line(a, pa, b, pb, ext, oext, str_, olay, ostr, tag):
+        ln = "seq it=%s pat=%s oit=%s opat=%s olay=%s ext=%s oext=%s str=%s" % (a, pat_str(pa), b, pat_str(pb), olay, fmt_list(ext),
+                                                                              fmt_list(oext), fmt_list(str_))
+        if olay == "stride":
+            ln += " ostr=%s" % fmt_list(ostr)
+        out.append((ln, "seq/" + tag))
+
+    def rep_ok(it, ext, strs):
+        return max(list(ext) + list(strs) + [0]) <= it_max(it) and req_stride(ext, strs) <= it_max(it)
+
+    for a, pa, b, pb in seq_list():
+        r = len(pa)
+        narrow_left = ITS[a][0] <= ITS[b][0]
+        nt, wt = (a, b) if narrow_left else (b, a)
+        mod = 2 ** ITS[nt][0]
+        fixed = [max(v, w) for v, w in zip(pa, pb)]
+        shapes = list(itertools.product(*[[f] if f >= 0 else [0, 1, 2, 3, 4] for f in fixed]))
+        if len(shapes) > (60 if thorough else 25):
+            shapes = [sh for sh in shapes if all(x in (0, 4) for x, f in zip(sh, fixed) if f < 0)][:6] + rnd.sample(shapes, 60 if thorough else 25)
+        for ext in shapes:
+            ext = list(ext)
+            if not fits(a, ext) or not fits(b, ext):
+                continue
+            for d in range(3 if thorough else 2):
+                sn, _ = make_strides(rnd, ext, exhaustive=(d == 0))
+                if not rep_ok(nt, ext, sn):
+                    continue
+                variants = [("same", list(sn))]
+                if r > 0:
+                    top = max(range(r), key=lambda k: (sn[k], -k))
+                    v = list(sn)
+                    v[top] += mod                                # congruent modulo 2^bits of the narrow index type
+                    variants.append(("congruent", v))
+                    k = rnd.randrange(r)
+                    v = list(sn)
+                    v[k] += mod * rnd.choice([1, 2, 3])
+                    variants.append(("congruent", v))
+                    v = list(sn)
+                    v[rnd.randrange(r)] += 1
+                    variants.append(("plus1", v))
+                    v = list(sn)
+                    v[top] += mod - 1 if mod - 1 + sn[top] <= it_max(wt) else 2
+                    variants.append(("near", v))
+                for tag, sw in variants:
+                    if not rep_ok(wt, ext, sw) or not stride_ok(ext, sw):
+                        continue
+                    ls, rs = (sn, sw) if narrow_left else (sw, sn)
+                    line(a, pa, b, pb, ext, ext, ls, "stride", rs, tag)
+                # another extent at a position that is dynamic on both sides
+                dynpos = [k for k in range(r) if pa[k] < 0 and pb[k] < 0]
+                if dynpos and d == 0:
+                    k = rnd.choice(dynpos)
+                    e2 = list(ext)
+                    e2[k] = (ext[k] + rnd.choice([1, 2])) % 5
+                    if fits(b, e2) and rep_ok(b, e2, sn) and rep_ok(a, ext, sn):
+                        line(a, pa, b, pb, ext, e2, sn, "stride", sn, "ext")
+                # against layout_left / layout_right of the same extents: random strides, and the strides of that layout
+                for olay in ("left", "right"):
+                    cs = contig_strides(ext, olay == "left")
+                    if rep_ok(a, ext, sn) and d == 0:
+                        line(a, pa, b, pb, ext, ext, sn, olay, None, "contig")
+                    if rep_ok(a, ext, cs) and d == 0:
+                        line(a, pa, b, pb, ext, ext, cs, olay, None, "contig-same")
+        # an empty index space makes every stride vector valid (required_span_size 0): extents whose layout_left / layout_right
+        # strides exceed the range of the lhs index type, against lhs strides that are those strides modulo 2^bits
+        if r >= 2 and all(v < 0 for v in fixed) and ITS[a][0] < ITS[b][0] and ITS[a][0] <= 16:
+            amax = it_max(a)
+            big = [amax, amax // 2 + 3, 100 if amax >= 100 else amax, 3, 2]
+            for zpos in range(r):
+                for rep in range(4 if thorough else 2):
+                    ext = [0 if k == zpos else rnd.choice(big) for k in range(r)]
+                    if not fits(b, ext):
+                        continue
+                    for olay in ("left", "right"):
+                        cs = contig_strides(ext, olay == "left")
+                        if max(cs) <= amax or max(cs) > it_max(b):
+                            continue
+                        ls = [x % (2 ** ITS[a][0]) for x in cs]
+                        if max(ls) > amax:
+                            continue
+                        line(a, pa, b, pb, ext, ext, ls, olay, None, "contig-congruent")
+                        line(a, pa, b, pb, ext, ext, ls, "stride", cs, "congruent")
+                        line(a, pa, b, pb, ext, ext, ls, "stride", ls, "same")
+    return out
+
+
 RULE = ("One `map` case = one extents object (index type, static/dynamic pattern, extents) under one layout "
         "(left, right, stride, transposed-left, transposed-right, transposed-stride), one constructor arity (rank_dynamic or "
         "rank values) and form (pack, array, span): the line reports every extent, rank/rank_dynamic, required_span_size, every "
@@ -315,7 +437,7 @@ RULE = ("One `map` case = one extents object (index type, static/dynamic pattern
         "uniqueness precondition for every such shape (rank 2: also as the nested mapping of layout_transpose<layout_stride>); "
         "a stride line also reports required_span_size, is_exhaustive, mdarray "
         "over the strided mapping, operator== against the layout_left / layout_right mappings of the same extents and "
-        "against strided mappings over dextents<int64_t> with equal / different strides, and the strides and extents "
+        "against strided mappings over dextents<int64_t> with equal / different strides (other index types: `seq`), and the strides and extents "
         "produced by the converting constructors; an `ext` line also compares the object with extents of another type "
         "(equal, one value changed, other rank). `mda`: one line per shape and layout (left, right, stride): every mdarray "
         "constructor -- (mapping), (extents), (exts...), (mapping|extents, value), (mapping|extents, container const&), "
@@ -327,6 +449,20 @@ RULE = ("One `map` case = one extents object (index type, static/dynamic pattern
         "index-pair slices (etl::pair, tuple, array<_,2> with run-time bounds; pair of integral constants; one static "
         "bound), every F/I/P/C vector of rank 1-2 and sampled vectors of rank 3-4, every dynamic value 0..4, all (one pair) or "
         "sampled lo <= hi <= extent. "
+        "An `mda` line also builds a SECOND object of the same type over another mapping (other values at every dynamic extent, "
+        "other strides for layout_stride -- also over fully static extents) with another container and reports, after swap(x, y), "
+        "copy construction, move construction, copy assignment and move assignment (static_vector container) and swap "
+        "(etl::array container), the extents and strides each object reports and len/sum/weighted sum of the elements read "
+        "through operator(). `seq`: layout_stride::mapping::operator== between mappings of DIFFERENT index types and extents "
+        "types (16 type pairs: uint8/int8/int16/uint16/int32/uint32/int64 in both roles, static / mixed / dynamic patterns, rank "
+        "0-4), both operand orders and operator!=, against a strided mapping (same strides; one stride larger by a multiple of "
+        "2^bits of the narrower index type, i.e. equal after a cast; +1; +2^bits-1; another dynamic extent) and against the "
+        "layout_left / layout_right mapping of the same extents (random strides, the strides of that layout, and -- over an empty "
+        "index space with extents up to the maximum of the narrow type -- strides congruent to them modulo 2^bits); oracle: "
+        "extents equal and strides equal as integers. `dflt`: the default-constructed layout_left / layout_right / "
+        "layout_stride mapping of every instantiated extents type (static, mixed, all-dynamic, rank 0-4, eight index types): "
+        "extents, strides, required_span_size, every offset, is_exhaustive, operator== of the strided one against the other two, "
+        "copy / assignment of the mapping and the mappings held by default-constructed mdspan / mdarray objects. "
         "`conv`: every (target mask, source mask) pair over seven value vectors, three index type pairs. `span`: "
         "every (length 0..6, static or dynamic extent, first/last/subspan, run-time and template arguments, offset, count "
         "incl. dynamic_extent) within the preconditions, against std::span. A case is non-trivial when the index space has "
@@ -342,6 +478,9 @@ ASSUMPTIONS = ["libstdc++ 12 has no <mdspan>: the C++-side oracle is the enumera
                "element type is int; accessor is default_accessor; mdarray containers are static_vector<int,256> (2048 over "
                "strided mappings in `map` lines) and etl::array<int,260>; mdarray constructors are exercised for shapes whose "
                "required_span_size is at most 256 (precondition: the container can hold required_span_size elements)",
+               "`seq` lines: both mappings satisfy the preconditions of their constructors (extents, strides and required span "
+               "size representable in the mapping's own index type, strides unique); the two index types differ, so a stride "
+               "of the wider mapping need not be representable in the narrower type -- operator== has no such precondition",
                "submdspan_extents: pair slices satisfy 0 <= lo <= hi <= extent ([mdspan.sub.extents] precondition); "
                "strided_slice is a static_assert in the library (not provided) and submdspan itself is commented out",
                "three compile probes (PROBES in checks/props/c19.py) switch constructs whose loss would stop the harness from "
@@ -367,13 +506,28 @@ THEOREMS = {
                             "transpose_observers_eq", "transpose_stride_mapping_eq", "transpose_stride_observers_eq",
                             "mdspan_access_transpose_stride_eq")],
     "mda": [P + x for x in ("mdarray_ctor_value_eq", "mdarray_ctor_container_eq", "mdarray_ctor_stride_eq",
-                            "mdspan_size_empty_std", "mdspan_extents_eq", "mdarray_to_mdspan_eq")],
+                            "mdspan_size_empty_std", "mdspan_extents_eq", "mdarray_to_mdspan_eq",
+                            "mdarray_copy_move_assign_swap_eq", "mdarray_swap_stride_eq", "mdarray_swap_contiguous_eq",
+                            "mdarray_assign_eq", "mdarray_assign_contiguous_eq")],
+    "dflt": [P + x for x in ("default_mapping_extents_eq", "stride_default_ctor_eq", "stride_consistent", "required_span_size_eq",
+                             "mapIdx_closed_form", "stride_eq_contiguous", "stride_is_exhaustive_eq")],
+    "seq": [P + x for x in ("stride_eq_stride", "stride_eq_contiguous", "extents_eq_iff")],
     "msz": [P + x for x in ("mdspan_size_empty_std", "size_fits_of_fits", "mdspan_extents_eq")],
     "conv": [P + "conv_extent_eq", P + "extents_eq_iff"],
     "sub": [P + "submdspan_extents_eq", P + "submdspan_extents_slices_eq"],
     "span": [P + x for x in ("subspan_eq", "subspanT_eq", "first_eq", "last_eq")],
     "stride_members": [P + "stride_required_span_size_eq", P + "stride_is_exhaustive_eq"],
 }
+
+
+def other_vals(rnd, it, p, vals):
+    """extents of a second object of the same extents type: another value (0..4) at every dynamic position, within the
+    preconditions (representable, at most 256 elements); `vals` itself when the pattern has no dynamic position"""
+    for _ in range(8):
+        v2 = [v if q >= 0 else rnd.choice([x for x in range(5) if x != v]) for v, q in zip(vals, p)]
+        if fits(it, v2) and prod(v2) <= 256:
+            return v2
+    return list(vals)
 
 
 def dyn_choices(rnd, p, full, cap):
@@ -428,11 +582,14 @@ def generate(tier, seed):
                     k += 1
                     add("map lay=%s it=%s pat=%s ext=%s ctor=%s form=%s"
                         % (lay, it, pat_str(p), fmt_list(vals), ("dyn", "all")[k % 2], forms_all[k % 3]), "map/%s" % lay)
-            # mdarray constructors (one line per shape and layout)
+            # mdarray constructors (one line per shape and layout); ext2: the extents of a second object, other values at the
+            # dynamic positions (copy / move / assignment / swap between objects with different mappings)
+            vals2 = other_vals(rnd, it, p, vals)
             if prod(vals) <= 256:
                 for lay in ("left", "right"):
                     k += 1
-                    add("mda lay=%s it=%s pat=%s ext=%s val=%d" % (lay, it, pat_str(p), fmt_list(vals), (7, -3, 1)[k % 3]), "mda/%s" % lay)
+                    add("mda lay=%s it=%s pat=%s ext=%s val=%d ext2=%s" % (lay, it, pat_str(p), fmt_list(vals), (7, -3, 1)[k % 3], fmt_list(vals2)),
+                        "mda/%s" % lay)
             # explicit strides: permuted, padded; several draws per shape
             ndraw = (3 if thorough else 1) if r >= 3 else (4 if thorough else 2)
             if r == 0:
@@ -451,8 +608,27 @@ def generate(tier, seed):
                         % (it, pat_str(p), fmt_list(vals), ("dyn", "all")[k % 2], ("array", "span")[k % 2], fmt_list(strs),
                            fmt_list(perm)), "map/tstride")
                 if d == 0 and req_stride(vals, strs) <= 256:
-                    add("mda lay=stride it=%s pat=%s ext=%s val=%d str=%s perm=%s"
-                        % (it, pat_str(p), fmt_list(vals), (7, -3, 1)[k % 3], fmt_list(strs), fmt_list(perm)), "mda/stride")
+                    # the second object: other dynamic extents (every second line: the same extents) and other strides
+                    v2 = list(vals2 if k % 2 else vals)
+                    for _ in range(8):
+                        strs2, perm2 = make_strides(rnd, v2, exhaustive=False)
+                        if (strs2 != strs or r == 0) and req_stride(v2, strs2) <= 256 and max(strs2 + [0]) <= it_max(it):
+                            break
+                    else:
+                        strs2, perm2 = make_strides(rnd, v2, exhaustive=True)
+                    if req_stride(v2, strs2) > min(256, it_max(it)) or max(strs2 + [0]) > it_max(it):
+                        v2, strs2, perm2 = list(vals), list(strs), list(perm)
+                    add("mda lay=stride it=%s pat=%s ext=%s val=%d str=%s perm=%s ext2=%s str2=%s perm2=%s"
+                        % (it, pat_str(p), fmt_list(vals), (7, -3, 1)[k % 3], fmt_list(strs), fmt_list(perm), fmt_list(v2), fmt_list(strs2),
+                           fmt_list(perm2)), "mda/stride")
+    # ---- default-constructed mappings (layout_left / layout_right / layout_stride; mdspan / mdarray default constructors)
+    for it, p in map_type_list(THOROUGH_BUILD)[0]:
+        vals = [v if v >= 0 else 0 for v in p]
+        if fits(it, vals):
+            add("dflt it=%s pat=%s ext=%s" % (it, pat_str(p), fmt_list(vals)), "dflt")
+    # ---- layout_stride::mapping::operator== across index types / extents types
+    for ln, tag in seq_lines(rnd, thorough):
+        add(ln, tag)
     # ---- mdspan::size / empty / extents for shapes inside the precondition of the standard (every extent and the SIZE
     # representable) but outside `Fits`: a zero extent among extents whose product is not representable
     for it, p in map_type_list(THOROUGH_BUILD)[0]:
@@ -568,8 +744,8 @@ def _probe_flags():
 
 
 BASE_FLAGS = list(HARNESS_FLAGS)
-# NMAP mapping units, NEXT extents-only units, conv + span unit, main() + dispatcher
-PARTS = list(range(NMAP)) + [100 + j for j in range(NEXT)] + [200, -1]
+# NMAP mapping units, NEXT extents-only units, conv + span + sub unit, seq unit, main() + dispatcher
+PARTS = list(range(NMAP)) + [100 + j for j in range(NEXT)] + [200, 201, -1]
 LINK_STUB = "harness/c19_link.cpp"          # empty translation unit: check.py's own compile step only links the objects
 
 
@@ -620,6 +796,10 @@ def nontrivial(case, rows):
         return "cm=0/" not in r.spec
     if ln.startswith("msz"):
         return True
+    if ln.startswith("dflt"):
+        return "pat=[]" not in ln
+    if ln.startswith("seq"):
+        return "pat=[]" not in ln
     if ln.startswith("conv"):
         return "pat=[]" not in ln and "-1" in ln.split("pat=")[1].split(" ")[0]
     if ln.startswith("span"):
@@ -647,7 +827,8 @@ LEVEL_TEXT = ("extents (constructors, converting constructor, extent, operator==
               "layout_right and layout_stride), submdspan_extents for full_extent / index / index-pair slices, mdspan / "
               "mdarray element access, extents(), size, empty, operator[](array|span), to_mdspan, container_size, the mdarray "
               "constructors (mapping | extents | exts..., with value, container const&, container&&; size-constructible and "
-              "etl::array containers) and span first/last/subspan are modelled clause by clause "
+              "etl::array containers), mdarray copy / move construction, copy / move assignment and swap (an object = mapping + "
+              "container), the default constructors of the three mappings and span first/last/subspan are modelled clause by clause "
               "with checked array accesses and explicit index_type casts. Lean 4 proves for every rank, every extents vector "
               "and every static/dynamic pattern (no bound) that the model never leaves an array, that the offset of an "
               "in-range multi-index equals the closed form (mixed radix for left, right, transposed; sum of index*stride for "
@@ -661,7 +842,12 @@ LEVEL_TEXT = ("extents (constructors, converting constructor, extent, operator==
               "transposed strided mapping is exhaustive iff the nested one is, that mdspan/mdarray access over all layouts "
               "reads exactly buffer[offset], that after each mdarray constructor the container holds required_span_size "
               "(etl::array: its static size) value-initialised elements / copies of the value / the given container's contents "
-              "and operator() reads the element at the closed-form offset, that size() is the exact product of the extents "
+              "and operator() reads the element at the closed-form offset, that after swap(a, b) each mdarray reports the extents "
+              "and strides of the other and reads the other's container at the other's offsets (layout_stride: also over fully "
+              "static extents; layout_left/right: the dynamic extents), likewise after assignment and copy / move construction, "
+              "that layout_stride::operator== is true exactly when extents and strides are equal as integers for any two index "
+              "types, that a default-constructed layout_stride mapping has the default extents and the strides of the "
+              "default-constructed layout_right mapping and compares equal to it, that size() is the exact product of the extents "
               "and empty() holds iff an extent is 0 under the standard's precondition alone (size representable in size_type), "
               "that submdspan_extents keeps exactly the kept dimensions with their static extents and gives an index pair "
               "the extent hi - lo (static for a pair of integral constants), and that span "
@@ -683,15 +869,20 @@ LEVEL_NOTE = ("Trusted: Lean kernel + propext/Classical.choice/Quot.sound; the h
               "Span: the model returns a precondition error for Count > size() where the code has no run-time check. "
               "mdarray constructors: proved for the two container kinds the harness uses (constructible from size_t / "
               "(size_t, value), and etl::array), under the precondition that the container can hold required_span_size() "
-              "elements; the moved-from state of a container&& argument is not described. submdspan_extents with a "
+              "elements; the moved-from state of a container&& argument or of a moved-from mdarray is not described; the mdarray "
+              "object theorems are about a model with two fields (mapping, container) whose operations are member-wise by "
+              "construction -- what they add is that reads through the resulting object use the mapping that travelled with "
+              "the container; that the real swap / assignment touch BOTH members is established by the `mda` lines only. submdspan_extents with a "
               "strided_slice is a static_assert in the library and submdspan / submdspan_mapping are commented out: nothing "
               "to verify there. "
               "Members listed in "
               "coverage.correspondence_only are compared on every run but have no theorem.")
 CORRESPONDENCE_ONLY = [
-    "mdarray copy / move construction, copy assignment, swap, extract_container, mapping(), stride(r), extent(r), "
-    "operator[](array|span), the conversion operators to mdspan and the deduction guide mdspan(mdarray): exercised on every "
-    "`mda` line against the pointer-arithmetic oracle (folded into the misc= flag), not modelled",
+    "mdarray extract_container, mapping(), stride(r), extent(r), operator[](array|span), the conversion operators to mdspan and "
+    "the deduction guide mdspan(mdarray): exercised on every `mda` line against the pointer-arithmetic oracle (folded into the "
+    "misc= flag), not modelled (copy / move construction, assignment and swap ARE modelled: MdArr, mdarray_swap_stride_eq ...)",
+    "the default constructors of mdspan and mdarray (rank_dynamic() > 0) and copy construction / assignment of a "
+    "layout_stride mapping: compared with the default-constructed mappings on every `dflt` line (obj= flag), no model function",
     "the forwards of the six observers by mdspan and mdarray (one-line members): compared with the mapping's own answers on "
     "every map line (last bit of obs=); the theorems are about the mapping's observers",
     "mdspan constructors other than (pointer, mapping): (pointer, exts...) / (pointer, span) / (pointer, array) with rank() and "
